@@ -200,17 +200,22 @@ Definition sig_copied (c : wcfg) (t : ty) (bs : bytes) : N :=
 Definition sig_nest (c : wcfg) (t : ty) (bs : bytes) : N :=
   nest (fst (sig_copy parse_opt c (S (List.length bs)) t bs)).
 
-(* the reader nesting of a type without looking at the data: what [nest] is for a type that holds
-   no dynamic value (DepthCostProofs.nest_static) *)
-Fixpoint rdepth (t : ty) : N :=
+(* the reader nesting of a type without looking at the data (dv, dobj: the nesting of the readers of
+   "m" and "o"): what [nest] is at most for a type that holds no dynamic value
+   (DepthCostProofs.sig_copy_nest_static) *)
+Fixpoint rdepth_g (dv dobj : N) (t : ty) : N :=
   match t with
-  | TS SObject => 5          (* the ObjectReference structure: struct, map, struct, list, struct, string *)
+  | TS SValue => dv
+  | TS SObject => dobj
   | TS _ => 1
-  | TList t' => 1 + rdepth t'
-  | TMap k v => 2 + N.max (rdepth k) (rdepth v)
-  | TTuple ts => 1 + fold_right (fun t a => N.max (rdepth t) a) 0 ts
-  | TStruct _ fs => 1 + fold_right (fun f a => N.max (rdepth (snd f)) a) 0 fs
+  | TList t' => 1 + rdepth_g dv dobj t'
+  | TMap k v => 2 + N.max (rdepth_g dv dobj k) (rdepth_g dv dobj v)
+  | TTuple ts => 1 + fold_right (fun t a => N.max (rdepth_g dv dobj t) a) 0 ts
+  | TStruct _ fs => 1 + fold_right (fun f a => N.max (rdepth_g dv dobj (snd f)) a) 0 fs
   end.
+(* "o": the ObjectReference structure (struct, struct, map, entry, struct, list, struct, string) *)
+Definition rdepth_obj : N := rdepth_g 1 1 ty_ObjectReference.
+Definition rdepth (t : ty) : N := rdepth_g 1 rdepth_obj t.
 
 (* the family of the finding sig_reader_depth_quadratic: n dynamic values nested in one another, the
    innermost holding a void: n times the string "m", then the string "v"; 5 (n + 1) bytes *)
